@@ -21,7 +21,7 @@ from vf.props.common import harness_error, inconclusive, proved, violation
 ID = "C01"
 LEVEL = "model_checking"
 ITEM_BUDGET_S = {"quick": 240, "thorough": 900}
-QT = {"quick": 15000, "thorough": 60000}
+QT = {"quick": 15000, "thorough": 30000}
 _TIER = "quick"
 OBS = ["evaluate", "compile", "compile_again", "dict_fn", "CompiledExpression.value", "compile_iterative"]
 OBS_P = ["evaluate@p'", "compile@p'", "dict_fn@p'", "CompiledExpression.value@p'", "compile_iterative@p'", "compile_fresh@p'"]
@@ -48,7 +48,7 @@ def items(tier, seed):
     if tier == "thorough":
         rs += K.random_recipes(seed, 400, 3)
     its = [("conf", seed), ("twin", 0), ("totality", 0)] + [("rs", ch) for ch in K.chunks(rs, 4)]
-    return its + K.touched_items(its, 3 if tier == "quick" else 1, ("rs",))
+    return its + K.touched_items(its, 3, ("rs",))
 
 
 def observe(recipe, order, val):
